@@ -236,8 +236,20 @@ class FnTx:
     def stmt(self, s):
         k = s[0]
         if k == 'let':
-            pat = s[1][1]
-            if len(pat) != 1 or s[3] is None:
+            pat = [t for t in s[1][1] if t != 'mut']
+            if s[3] is None:
+                raise Unsupported('let pattern')
+            if len(pat) >= 3 and pat[0] == '[' and pat[-1] == ']':
+                # `let [a, _, c] = <array>;`: every name is bound to its element
+                names = [t for t in pat[1:-1] if t != ',']
+                v = self.tx(s[3])
+                if v[0] != 'array' or len(v[1]) != len(names) or not all(re.fullmatch(r'_|[a-z_][a-z0-9_]*', n) for n in names):
+                    raise Unsupported('array pattern')
+                for n, x in zip(names, v[1]):
+                    if n != '_':
+                        self.env[n] = ('scalar', x, v[2])
+                return
+            if len(pat) != 1:
                 raise Unsupported('let pattern')
             v = self.tx(s[3])
             self.env[pat[0]] = v
@@ -293,6 +305,16 @@ def lean_ty(ty):
 
 def collect_enums(items, ctx):
     all_items = list(walk_items(items))
+    # numeric constants of the file: an enum's `id()` / `From<u8>` may name them instead of literals
+    ctx.num_consts = {}
+    for it in all_items:
+        if it['kind'] == 'const':
+            try:
+                v = const_eval(parse_expr_tokens(it['expr']), ctx.num_consts)
+                if isinstance(v, int):
+                    ctx.num_consts[it['name']] = v
+            except Unsupported:
+                pass
     for it in all_items:
         if it['kind'] == 'struct' and it['body'] and it['body'][0] == 'tuple':
             inner = [t for _, t in it['body'][1]]
@@ -346,7 +368,8 @@ def collect_enums(items, ctx):
                     ctx.enums[hdr[-1]]['from'] = (parse_body(f['body']), [t for _, t in f['params']][0])
 
 
-def emit_enum(name, info):
+def emit_enum(name, info, num_consts=None):
+    num_consts = num_consts or {}
     vs = info['variants']
     if 'id' not in info or 'from' not in info:
         return None
@@ -369,6 +392,8 @@ def emit_enum(name, info):
             raise Unsupported(f'id pattern {pat}')
         v = pat[2]
         if len(pat) == 3:
+            if body[0] == 'path' and len(body[1]) == 1 and body[1][0] in num_consts:
+                body = ('num', num_consts[body[1][0]], None)
             if body[0] != 'num':
                 raise Unsupported('id arm body')
             out.append(f'  | .{v} => {body[1]}')
@@ -391,8 +416,8 @@ def emit_enum(name, info):
     for pat, guard, body in m[2]:
         if guard:
             raise Unsupported('guard in from')
-        if len(pat) == 1 and re.match(r'^(0x)?[0-9a-fA-F]+$', pat[0]):
-            n = int(pat[0], 0)
+        if len(pat) == 1 and (re.match(r'^(0x)?[0-9a-fA-F]+$', pat[0]) or pat[0] in num_consts):
+            n = num_consts[pat[0]] if pat[0] in num_consts else int(pat[0], 0)
             if body[0] != 'path' or body[1][0] != 'Self':
                 raise Unsupported('from arm body')
             chain += f'  if x = {n} then .{body[1][1]} else\n'
@@ -508,7 +533,7 @@ def translate_file(repo, stem, ctx, report):
                                          callees=sorted(tx.callees), param=pty, ret=rty))
                         report['translated'].append(full)
                     except Unsupported as ex:
-                        report['untranslated'].append(dict(fn=full, reason=str(ex)))
+                        report['untranslated'].append(dict(fn=full, reason=str(ex), is_pub=bool(f.get('is_pub'))))
                 # constructors: `if packet.len() >= Self::minimum_packet_size() { Ok(..Mutable|Immutable..) } else { Err(..) }`
                 for f in fns:
                     if f['name'] not in ('new', 'new_view'):
@@ -555,8 +580,13 @@ def translate_file(repo, stem, ctx, report):
                     except (Unsupported, IndexError, TypeError) as ex:
                         report['untranslated'].append(dict(fn=full, reason=str(ex)))
                 tinfo['defs'] = defs
+                # public functions that are not field accessors must be hand-modelled (C04 / C14); private
+                # helpers are no obligation of their own: a public function that uses one is either translated
+                # (the helper inlined or refused) or hand-modelled and compared with the real function
                 tinfo['other_fns'] = [f['name'] for f in fns
-                                      if not (f['name'].startswith('get_') or f['name'].startswith('set_'))]
+                                      if not (f['name'].startswith('get_') or f['name'].startswith('set_'))
+                                      and f.get('is_pub', True)]
+                tinfo['private_fns'] = [f['name'] for f in fns if not f.get('is_pub', True)]
                 ctx.types.append(tinfo)
 
     visit(items, {})
@@ -582,7 +612,7 @@ def main():
         emitted = []
         for name, info in ectx.enums.items():
             try:
-                txt = emit_enum(name, info)
+                txt = emit_enum(name, info, getattr(ectx, 'num_consts', {}))
             except Unsupported as ex:
                 report['untranslated'].append(dict(fn=f'{stem}.{name}', reason=str(ex)))
                 txt = None
